@@ -210,6 +210,8 @@ EXTRA3 = {
  'C13': ' (EF-4b) no element-dropping or merging iterator adaptor (dedup, unique, filter, skip, take, ..) is applied in gff::Writer::write: repeated values of a key reach the output.',
  'C14': ' (EP-2) every term of hmm::backward that adds Model::initial_prob for the final likelihood also reads the backward table or calls end_prob (single-observation branch included).',
  'C15': ' (BP-1) in ln_trapezoidal_integrate_exp / ln_simpsons_integrate_exp no interval end handed in as a parameter is evaluated twice as a boundary point (which parameters reach the density; the value of the integral is not decided).',
+ 'C16': ' (SZ-1) the per-node score table of Aligner::consensus has exactly node_count() slots, so the maximum search can only return a node (this class of defect made consensus() panic on graphs without edges; repaired in /repo).',
+ 'C19': ' (PO-11) every wrapping/overflowing/unchecked shift of RankTransform::{qgrams, rev_qgrams} and the q-gram iterators has a shift amount proved smaller than the word width (q * bits may equal the word size); count zero today, positive control by self-test mutant.',
  'C20': ' (SW-1) the codon window shared by the three reading frames is only slid inside orf::Matches::next, never emptied, shortened or replaced.',
 }
 
